@@ -21,9 +21,9 @@ P = {
  "C02": dict(cat="exploration", tech="round-trip and representation-independence monitor (differential against the calendar oracle) + ASan/UBSan",
    text="Chains ymd>A>B>ymd through the tool's own output for all 42 ordered calendar pairs; every date specifier alone, in "
         "random orders and after every other specifier, printed from 19 holders (parsed ymd/ywd/yd/ymcw/day numbers, results "
-        "of dadd and dround) plus dseq's day counts over all days; every day of the Umm-al-Qura table. Judged against the "
+        "of dadd and dround) plus dseq's day counts over all days; every day of the Umm-al-Qura table, both directions. Judged against the "
         "calendar oracle, so two representations that agree but are both wrong are still caught.",
-   note=SAN + "Hijri -> Gregorian is not reachable from the CLI. " + TB, ref="3 C02"),
+   note=SAN + "Hijri -> Gregorian goes through command-line arguments (-i hijri does not read stdin). " + TB, ref="3 C02"),
  "C03": dict(cat="exploration", tech="reference-model monitor (ordinal arithmetic) over dadd sweeps + ASan/UBSan",
    text="dadd +-N days/weeks in 9 representations (ymd, ywd, yd, ymcw, bizda, ldn, mdn, jdn, epoch) on ~20k boundary+random start days x fixed N list (carry sizes from 1 day to 400 "
         "years) x random N, results printed natively and in another calendar, plus the laws (d+n)-n=d and (d+a)+b=d+(a+b).",
